@@ -12,13 +12,15 @@ from .. import maps, mesh_oracle as mo, sched
 TITLE = "Thick maps reduce the sampled column and scale units consistently"
 RULE = (
     "fixed corpus: dz/cell-size ratio 2**-5 .. 2**3 x eight reductions x direction mode; then case i -> "
-    "rng(seed, C11, i): meshes/origins/directions as C03, dz from one pixel to the domain size, int and dict "
+    "rng(seed, C11, i): meshes/origins/directions as C03, dz from one pixel to the domain size and 'deep' columns of 3..60 x max(nx, ny) pixels behind 1..6 pixel "
+    "wide windows, int and dict "
     "resolutions (with and without 'z'), dx/dz in different length units; schedule cases on the 3-D sampling "
     "kernel.  Non-trivial = the slab cuts >=2 cells along depth or is thinner than the cell containing it, and "
     ">=1 pixel has a complete unambiguous column; distinct = distinct (mesh, request)."
 )
-ASSUMPTIONS = ["dz >= one pixel (the statement's range); columns of more than ~40 samples are requested through "
-               "resolution['z'] to bound the oracle's cost", "vector layers of thick maps are not judged separately"]
+ASSUMPTIONS = ["dz >= one pixel (the statement's range); columns of more than max(40, min(400, 30000/(nx*ny))) samples are "
+               "requested through resolution['z'] to bound the oracle's cost (so deep columns with the default depth "
+               "resolution are seen through coarse windows: up to 400 samples behind a 1..8 pixel wide window)", "vector layers of thick maps are not judged separately"]
 
 
 def plan(tier):
@@ -27,7 +29,7 @@ def plan(tier):
             "required_monitors": ["pixels-judged", "column-samples", "schedule-runs", "boundscheck-runs"],
             "required_tags": ["slab-thinner-than-cell", "slab-thicker-than-cell", "op-sum", "op-mean", "op-min",
                               "op-max", "op-nansum", "op-nanmean", "op-nanmin", "op-nanmax", "z-resolution-given",
-                              "z-resolution-default", "oblique"]}
+                              "z-resolution-default", "oblique", "deep-column-default-z"]}
 
 
 def cases(ctx):
@@ -70,8 +72,10 @@ def run_case(case, ctx, res):
     px = 0.5 * (req["dx"] / r["x"] + (req["dy"] if req.get("dy") is not None else req["dx"]) / r["y"])
     if req["dz"] < px:
         req["dz"] = px * 1.01
-    if "z" not in r and req["dz"] / px > 40:
+    if "z" not in r and req["dz"] / px > max(40, min(400, 30000 // max(1, r["x"] * r["y"]))):
         r["z"] = 16
+    if "z" not in r and req["dz"] / px > 4.5 * max(r["x"], r["y"]):
+        res.tag("deep-column-default-z")
     req["resolution"] = r if ("z" in r or r["x"] != r["y"] or rng.random() < 0.5) else r["x"]
     res.digest_src = {"mesh": [mesh["style"], mesh["ndim"], len(mesh["pos"])], "req": req}
     info = maps.run_map(osy, rng, res, mesh, req, thick=True)
